@@ -48,6 +48,7 @@ class Feat:
         self.export_safe = False    # only constructs inside the documented export subset
         self.item_refs = True       # parameter formulas may return extra references
         self.partial = False        # formulas that fail naturally for some arguments (12 // x)
+        self.item_reads_cells = False   # parameter formulas may compute a returned reference with a cells
         self.__dict__.update(kw)
 
 
@@ -473,6 +474,23 @@ def gen_model_ops(draw, feat, G=None):
                 emit(["set_cells_formula", p, n, gen_cells_def(draw, G, sp, n, feat, params=old.params)])
             continue
         emit(["new_cells", p, gen_cells_def(draw, G, sp, n, feat)])
+    # a parameter formula whose returned reference is computed by a cells of the space (a leaf cells: it calls
+    # nothing but itself): the instance depends on that element
+    if feat.items and feat.item_refs and feat.item_reads_cells:
+        for p in paths:
+            sp = G.space(tuple(p))
+            f = sp.formula
+            if f is None or not f.get("ret") or not f["ret"].get("refs") or "c0" not in sp.cells:
+                continue
+            if draw(st.integers(0, 3)) != 0:
+                cps = sp.cells["c0"].params
+                args = [["var", f["params"][0][0]]] + [["lit", 1] for q in cps[1:] if q[1] is None]
+                if not cps:
+                    args = []
+                f2 = {"params": f["params"], "form": f["form"],
+                      "ret": {"base": f["ret"].get("base"),
+                              "refs": {"k0": ["bin", "+", f["ret"]["refs"]["k0"], ["call", ["name", "c0"], args, "()"]]}}}
+                emit(["set_formula", p, f2])
     # a model-level reference named like a cells of some space (cells take precedence inside that space)
     if feat.shadow and draw(st.integers(0, 2)) == 0:
         p = draw(st.sampled_from(paths))
